@@ -24,8 +24,12 @@ pub fn run_history(hist: &Value, out: &mut dyn Write) {
                     let template = if op["kind"] == "wide" { format!("{}{{wide_bar}}{}", lit(&pre), lit(&suf)) }
                         else if op["dflt"].as_bool().unwrap_or(false) { format!("{}{{bar}}{}", lit(&pre), lit(&suf)) }
                         else { format!("{}{{bar:{}}}{}", lit(&pre), op["n"].as_u64().unwrap_or(0), lit(&suf)) };
-                    let style = match ProgressStyle::with_template(&template) { Ok(s) => s, Err(e) => return (vec![], format!("{e}")) };
-                    let style = style.progress_chars(&chars);
+                    let style = if op["order"] == "ct" {
+                        // the progress characters first, then the template on the style that already carries them
+                        match ProgressStyle::default_bar().progress_chars(&chars).template(&template) { Ok(s) => s, Err(e) => return (vec![], format!("{e}")) }
+                    } else {
+                        match ProgressStyle::with_template(&template) { Ok(s) => s.progress_chars(&chars), Err(e) => return (vec![], format!("{e}")) }
+                    };
                     let spy = Spy::new(op["tw"].as_u64().unwrap_or(200) as u16, 100);
                     let len = if op["haslen"].as_bool().unwrap_or(true) { Some(op["len"].as_u64().unwrap_or(0)) } else { None };
                     let pb = ProgressBar::with_draw_target(len, ProgressDrawTarget::term_like(Box::new(spy.clone())))
